@@ -86,8 +86,16 @@ def run_for(pid):
             ctx.note('images_judged', res.get('images_judged', 0))
             ctx.note('udf_images_judged', res.get('udf_images_judged', 0))
             ctx.note('images_remastered', res.get('images_remastered', 0))
+            skipped_at = {}
+            for sk in res['skip']:
+                skipped_at[sk['tid']] = min(sk['step'], skipped_at.get(sk['tid'], 1 << 30))
             for tid, clauses in res.get('image_fails', {}).items():
                 if '@' in tid:       # image item of a backing file after modify_file_in_place
+                    base, at = tid.split('@')
+                    if skipped_at.get(base, 1 << 30) <= int(at):
+                        # the model put this call outside its scope (e.g. edits pending): not judged
+                        ctx.note('backing_images_out_of_scope')
+                        continue
                     mine = sorted(clauses) if pid == 'C17' else []
                 else:
                     mine = sorted(c for c in clauses if pid in core.image_properties(c))
@@ -105,7 +113,7 @@ def run_for(pid):
                 h = beh[tid]
                 tainted = False
                 for d in sorted(ds, key=lambda x: x['step']):
-                    props = core.properties_of(d)
+                    props = core.properties_of(d, h)
                     sig = core.signature(d, h)
                     if pid in props:
                         if tainted:
